@@ -236,20 +236,39 @@ func (u *controlUnit) shouldUseForwarding(runner *risc.InstructionRunnerPc, haza
 		return false, nil, risc.Zero
 	}
 
-	// Can we use forwarding with an instruction pushed in the previous cycle
+	// With renaming, a younger writer of the register may have been pushed in
+	// the current cycle: forwarding from an older one would hand over a stale
+	// value, so we wait for the next cycle
+	for currentRunner := range u.pushedRunnersInCurrentCycle {
+		for _, writeRegister := range currentRunner.Runner.WriteRegisters() {
+			for _, readRegister := range runner.Runner.ReadRegisters() {
+				if readRegister != risc.Zero && readRegister == writeRegister {
+					return false, nil, risc.Zero
+				}
+			}
+		}
+	}
+
+	// Can we use forwarding with an instruction pushed in the previous cycle;
+	// if several of them write the register, the youngest one holds its value
+	var source *risc.InstructionRunnerPc
+	register := risc.Zero
 	for previousRunner := range u.pushedRunnersInPreviousCycle {
 		for _, writeRegister := range previousRunner.Runner.WriteRegisters() {
 			for _, readRegister := range runner.Runner.ReadRegisters() {
 				if readRegister == risc.Zero {
 					continue
 				}
-				if readRegister == writeRegister {
-					return true, previousRunner, readRegister
+				if readRegister == writeRegister && (source == nil || previousRunner.SequenceID > source.SequenceID) {
+					source, register = previousRunner, readRegister
 				}
 			}
 		}
 	}
-	return false, nil, risc.Zero
+	if source == nil {
+		return false, nil, risc.Zero
+	}
+	return true, source, register
 }
 
 func (u *controlUnit) shouldUseRenaming(hazards []risc.Hazard, hazardTypes map[risc.HazardType]bool) bool {
